@@ -320,7 +320,7 @@ PROPS["C11"] = dict(
                       "compositions_of_depth_3": 20, "slices_length_not_divisible_by_step": 50,
                       "slices_with_negative_step": 50, "empty_iterables": 50, "checked_Filter": 50, "checked_Map": 50,
                       "checked_enumerate": 20, "repeated_pointer_reproducer_runs": 1, "small_map_grid_points": 150,
-                      "leaves_with_an_edit_history": 100}},
+                      "leaves_with_an_edit_history": 100, "map_leaves_with_an_edit_history": 100, "map_leaves_filled_in_descending_order": 100}},
     rule="case = a generated tree of 3-5 leaf iterables and 3-10 views over them (depth <= 3), every node checked "
          "forwards, backwards, by len and by get; distinct = hash of the node descriptions; non-trivial = contains a "
          "composition of depth >= 2",
